@@ -4,6 +4,8 @@ from __future__ import annotations
 import numpy as np
 from hypothesis import strategies as st
 
+from vp.gen.morph import fl
+
 from vp import core
 from vp.gen import morph as gm
 
@@ -54,10 +56,10 @@ def _spec(draw, tier):
     leak = {
         "rows": rows,
         "g": [draw(gm.log_uniform(1e-6, 1e-2)) for _ in rows],
-        "e": [draw(st.floats(-90.0, -40.0)) for _ in rows],
+        "e": [draw(fl(-90.0, -40.0)) for _ in rows],
     }
     nst = draw(st.integers(0, 3))
-    stim = [[draw(st.integers(0, N - 1)), draw(st.floats(-5.0, 5.0))] for _ in range(nst)]
+    stim = [[draw(st.integers(0, N - 1)), draw(fl(-5.0, 5.0))] for _ in range(nst)]
     dt = draw(st.one_of(st.sampled_from([0.025, 0.1, 1.0]), gm.log_uniform(1e-4, 10.0)))
     cfg = [draw(st.sampled_from(SOLVERS[:2] * 2 + SOLVERS[2:])), draw(st.sampled_from(BACKENDS))]
     return {"morph": morph, "leak": leak, "stim": stim, "dt": dt, "integrate_cfg": cfg}
@@ -169,7 +171,9 @@ def judge(spec, tier="quick"):
             results[(solver, backend)] = got
             if nontriv:
                 out.nontrivial_keys.append(f"{struct_key}|{solver}|{backend}")
-            if be > 1e-8 or errv > fwd_tol:
+            # the backward-error clause needs a forward error above rounding of the voltage scale
+            # (XLA flushes denormals to zero: a 5e-324 mV "error" has backward error 1)
+            if (be > 1e-8 and errv > 1e-12 * scale) or errv > fwd_tol:
                 out.violate(
                     f"reference:{solver}:{backend}",
                     f"{solver}/{backend} step_fn: max|v'-v_ref|={errv:.3e} mV (tol {fwd_tol:.1e}), backward error {be:.2e}; "
@@ -204,7 +208,7 @@ def judge(spec, tier="quick"):
                     out.nontrivial_keys.append(f"{struct_key}|integrate|{solver}|{backend}")
                 if e0 > 0:
                     out.violate("integrate-col0", f"column 0 differs from the initial voltages by {e0:.3e}")
-                if not (errv <= fwd_tol) or be > 1e-8:
+                if not (errv <= fwd_tol) or (be > 1e-8 and errv > 1e-12 * scale):
                     out.violate(
                         f"reference:{solver}:{backend}",
                         f"{solver}/{backend} integrate[:,1]: max|v'-v_ref|={errv:.3e} mV (tol {fwd_tol:.1e}), backward error {be:.2e}; "
